@@ -2,6 +2,7 @@
 known-findings matching, evidence writing."""
 import json
 import os
+import re
 import sys
 import time
 
@@ -335,11 +336,9 @@ def load_known():
         for line in open(p):
             line = line.strip()
             if line.startswith("known:"):
-                rest = line[len("known:"):].strip()
-                head, _, what = rest.partition("::")
-                parts = dict(x.split("=", 1) for x in head.split() if "=" in x)
-                if "property" in parts and "key" in parts:
-                    known.setdefault(parts["property"], {})[parts["key"]] = what.strip()
+                m = re.match(r"known:\s+property=(\S+)\s+key=(.*?)\s+::\s+(.*)$", line)
+                if m:
+                    known.setdefault(m.group(1), {})[m.group(2)] = m.group(3)
             elif line.startswith("fixed:"):
                 fixed.append(line)
     return known, fixed
